@@ -448,6 +448,33 @@ def run(p, report, tier):
                            detail="self._fit(...) on every path to this return" if ok else
                            "this return is reached without self._fit: the training window / data was (or may have been) changed, "
                            "the wrapped model was not")
+    report.rule("R11.15", "every classifier decides under its cost matrix: `predict` of a concrete classifier resolves to "
+                "SkactivemlClassifier.predict (arg-min of expected cost), or to an override that reads the cost matrix, or to a "
+                "pure delegation (every return is super().predict(...) / estimator_.predict(...)); an override that returns its "
+                "own decision (e.g. a majority vote) ignores a configured cost matrix", floor=4)
+    for ci in classes:
+        f = p.find_method(ci, "predict")
+        if f is None or is_abstract(f):
+            continue
+        base_impl = f.cls is not None and f.cls.name == "SkactivemlClassifier"
+        if base_impl:
+            report.add("R11.15", ci.name, "predict is the cost-sensitive base implementation", f"{f.file}:{f.node.lineno}", True,
+                       detail="SkactivemlClassifier.predict", nontrivial=False)
+            continue
+        txt = ast.unparse(f.node)
+        reads_cost = "cost_matrix" in txt
+        rets = [r for r in ast.walk(f.node) if isinstance(r, ast.Return) and r.value is not None]
+        def _deleg(v):
+            return isinstance(v, ast.Call) and isinstance(v.func, ast.Attribute) and v.func.attr == "predict" and (
+                (isinstance(v.func.value, ast.Call) and isinstance(v.func.value.func, ast.Name) and v.func.value.func.id == "super")
+                or "estimator_" in ast.unparse(v.func.value))
+        own = [r for r in rets if not _deleg(r.value)]
+        ok = reads_cost or not own
+        report.add("R11.15", ci.name, f"predict override in {f.cls.name if f.cls else '?'} decides under the cost matrix",
+                   f"{f.file}:{(own[0] if own and not ok else f.node).lineno}", ok,
+                   detail="reads the cost matrix" if reads_cost else ("pure delegation" if ok else
+                   f"`{norm_stmt(own[0], 50)}` returns a decision of its own and the override never reads the cost matrix: with a "
+                   f"non-default cost_matrix the returned class does not minimise the expected cost"))
     report.rule("R11.13", "decisions minimise the expected cost under the CONFIGURED cost matrix: check_cost_matrix returns the "
                 "matrix it validated - every binding of the returned array is a validation / conversion call (check_array, "
                 "np.asarray ...), never arithmetic on it", floor=1)
